@@ -182,6 +182,20 @@ def run(chk):
             if case["plan"] is None and rng.chance(1, 2):
                 case["plan"] = pipegen.gen_plan(rng)
             runner.run_case(case)
+        # one kept-alive connection carrying ordinary requests and uploads of the large class in turn: each is relayed as it is,
+        # whatever the connection carried before
+        def rq(method, target, size, chunked=None, key=True):
+            b = bytes(rng.below(256) for _ in range(4096)) * (size // 4096 + 1)
+            return {"env": {"ws": None, "imds": None, "hostga": None, "key": pipegen.KEY if key else None},
+                    "caller": callers.caller(0, "waagent", True), "dest": e2e.WS, "label": "ws", "plan": pipegen.gen_plan(rng) if rng.chance(1, 2) else None,
+                    "timeout": 20.0, "req": {"method": method, "target": target, "headers": [(b"Host", b"h")],
+                                             "body": (b[:size] if method != "GET" else None), "chunked": chunked}}
+        up, up2, plain = ("PUT", "/vmAgentLog"), ("POST", "/machine/?comp=telemetrydata"), ("POST", "/machine/?comp=telemetry")
+        for sess in ([rq("GET", "/machine?comp=goalstate", 0), rq(*up2, LOW + LOW // 2), rq(*plain, 300), rq(*up, 3 * LOW, [70000] * 5)],
+                     [rq(*plain, 17), rq(*up, 2 * LOW), rq("GET", "/machine?comp=goalstate", 0)],
+                     [rq(*up, 100), rq(*plain, LOW), rq(*up2, 4 * LOW, key=False), rq(*plain, 1)]):
+            done = runner.run_session(sess, chk.count)
+            chk.count("kept_connection_mixed_class_requests", len(done))
         runner.finish(oracle)
         chk.sample(runner.describe(runner.observations[1]))
         host_closes_connection(chk, rng, stack, callers)
